@@ -171,7 +171,7 @@ fn run_case<H: HK>(case: &FaultCase, ctx: &Ctx) -> Result<CaseInfo, Violation> {
                     .and_then(|s| db.finish(s, &pre.cur, &batch, &CommitOpts::default()))
                     .map_err(|f| Violation { step: n - 1, msg: f.sig() })?
             };
-            rec.watch(&dir, Some(FailPlan { k, persistent, errno }));
+            rec.watch(&dir, Some(FailPlan { k, persistent, errno, class: None }));
             let db = std::sync::Arc::new(db);
             let (db2, pre2, op2) = (db.clone(), pre.clone(), op.clone());
             let res = with_hang_guard("commit/rollback with an injected I/O fault", 90, move || exec(&db2, &pre2, &op2));
